@@ -326,9 +326,10 @@ func (bi *boolInterp) eval(fr *boolFrame, v ssa.Value, depth int) (bool, error) 
 	case *ssa.Call:
 		// a boolean module helper: evaluated in its own frame, parameters take the roles of the arguments
 		if callee := x.Call.StaticCallee(); callee != nil && len(callee.Blocks) > 0 && core.IsModPath(core.FuncPkgPath(callee)) && isBoolType(x.Type()) {
-			sub := &boolFrame{fn: callee, roles: map[ssa.Value]string{}, env: map[ssa.Value]bool{}}
+			sub := &boolFrame{fn: callee, roles: map[ssa.Value]string{}, env: map[ssa.Value]bool{}, subst: map[ssa.Value]ssa.Value{}}
 			for i, a := range x.Call.Args {
 				if i < len(callee.Params) {
+					sub.subst[callee.Params[i]] = fr.callerValue(resolveValue(a))
 					if r := bi.roleOf(fr, a); r != "" {
 						sub.roles[callee.Params[i]] = r
 					}
